@@ -294,8 +294,7 @@ fn eval(c: &Case, template_objects: &Path) -> Verdict {
         }
     }
     // report a failure of an unknown shape first, so that known shapes cannot hide it
-    const KNOWN_SHAPES: [&str; 4] =
-        ["loose-dir-order:", "find-error-parent-is-file:", "find-missed-uppercase-short-name:", "find-missed-packed-remote-head:"];
+    const KNOWN_SHAPES: [&str; 1] = ["loose-dir-order:"];
     if let Some(m) = failures.iter().find(|m| !KNOWN_SHAPES.iter().any(|k| m.starts_with(k))).or(failures.first()) {
         return Err(m.clone());
     }
